@@ -21,9 +21,30 @@ type IDCase struct {
 	Replies []IDRep // what the peer sends back, in order (stream: only the first is read)
 	Chunks  []int   // stream: segmentation of the reply
 	Timeout int     // datagram: client timeout in ms (only matters when no matching reply comes)
+	API     string  // stream: "" = Client.ExchangeWithConn | ExchangeConn (the package-level entry point)
+	// datagram: what decides the size of the receive buffer (client.go: EDNS0 size of the request
+	// if it has an OPT, else Client.UDPSize, else what the Conn already has, never below 512)
+	OptSize       int // 0 = request without OPT, else the advertised EDNS0 UDP size
+	ClientUDPSize int // Client.UDPSize
+	ConnUDPSize   int // Conn.UDPSize preset by the caller
+}
+
+// udpBuffer is the receive buffer size the documentation promises for a datagram exchange.
+func (c IDCase) udpBuffer() int {
+	size := c.ConnUDPSize
+	if c.OptSize >= 512 {
+		size = c.OptSize
+	} else if c.OptSize == 0 && c.ClientUDPSize >= 512 {
+		size = c.ClientUDPSize
+	}
+	if size < 512 {
+		size = 512
+	}
+	return size
 }
 
 type IDRep struct {
+	Size int    // size of the reply in octets (0 = 36)
 	Kind string // match | foreign | stale | dup (repeats the previous reply) | foreign-malformed (foreign ID, header intact, body cut short)
 	ID   uint16 // ID carried (for match = the request's ID)
 }
@@ -75,6 +96,9 @@ func genIDCase(stream bool) func(t *rapid.T) IDCase {
 				c.Replies = append(c.Replies, IDRep{Kind: "match", ID: c.ID})
 			}
 			c.Chunks = genChunks(t, "chunk")
+			if rapid.IntRange(0, 7).Draw(t, "entry") == 0 {
+				c.API = "ExchangeConn"
+			}
 			return c
 		}
 		n := rapid.SampledFrom([]int{0, 1, 1, 2, 3, 5, 8}).Draw(t, "before")
@@ -110,13 +134,37 @@ func genIDCase(stream bool) func(t *rapid.T) IDCase {
 			}
 		}
 		c.Timeout = rapid.SampledFrom([]int{40, 60, 80}).Draw(t, "timeout")
+		// buffer size selection, and replies between 512 octets and the size in force
+		c.OptSize = rapid.SampledFrom([]int{0, 0, 512, 1232, 4096}).Draw(t, "optSize")
+		c.ClientUDPSize = rapid.SampledFrom([]int{0, 0, 512, 1232, 4096, 65535}).Draw(t, "clientUDPSize")
+		c.ConnUDPSize = rapid.SampledFrom([]int{0, 0, 512, 1232, 4096}).Draw(t, "connUDPSize")
+		buf := c.udpBuffer()
+		for i := range c.Replies {
+			if c.Replies[i].Kind == "foreign-malformed" {
+				continue
+			}
+			switch rapid.IntRange(0, 3).Draw(t, "sizeKind") {
+			case 0:
+				c.Replies[i].Size = rapid.SampledFrom([]int{36, 511, 512, 513, buf - 1, buf}).Draw(t, "replySize")
+			case 1:
+				c.Replies[i].Size = rapid.IntRange(36, buf).Draw(t, "replySizeV")
+			}
+			if c.Replies[i].Size > buf {
+				c.Replies[i].Size = buf
+			}
+		}
 		return c
 	}
 }
 
 // reply i carries its ordinal as a token so that the oracle can tell which one was returned.
-func idReply(id uint16, ordinal int) []byte {
-	b := buildMsg(id, fullOverhead+4, 0, true)
+func idReply(id uint16, ordinal int) []byte { return idReplySized(id, ordinal, 0) }
+
+func idReplySized(id uint16, ordinal, size int) []byte {
+	if size < fullOverhead+4 {
+		size = fullOverhead + 4
+	}
+	b := buildMsg(id, size, byte(ordinal), true)
 	b[len(b)-4], b[len(b)-3], b[len(b)-2], b[len(b)-1] = 'r', byte('0'+ordinal/10), byte('0'+ordinal%10), '!'
 	return b
 }
@@ -126,10 +174,14 @@ func replyOrdinal(m *dns.Msg) int {
 		return -1
 	}
 	n, ok := m.Answer[0].(*dns.NULL)
-	if !ok || len(n.Data) != 4 || n.Data[0] != 'r' || n.Data[3] != '!' {
+	if !ok || len(n.Data) < 4 {
 		return -1
 	}
-	return int(n.Data[1]-'0')*10 + int(n.Data[2]-'0')
+	d := n.Data[len(n.Data)-4:]
+	if d[0] != 'r' || d[3] != '!' {
+		return -1
+	}
+	return int(d[1]-'0')*10 + int(d[2]-'0')
 }
 
 func checkID(c IDCase) error {
@@ -155,6 +207,18 @@ func checkID(c IDCase) error {
 	for _, r := range c.Replies {
 		cl = append(cl, "kind="+r.Kind)
 	}
+	if c.API != "" {
+		cl = append(cl, "api="+c.API)
+	}
+	if !c.Stream {
+		cl = append(cl, fmt.Sprintf("udp-buffer=%d", c.udpBuffer()))
+		if firstMatch >= 0 && c.Replies[firstMatch].Size > 512 {
+			cl = append(cl, "matching-reply>512")
+		}
+		if c.OptSize > 0 && c.ClientUDPSize >= 512 && c.ClientUDPSize != c.OptSize {
+			cl = append(cl, "opt-and-client-size-differ")
+		}
+	}
 	pbt.Note(key, foreignBefore > 0, cl...)
 	if foreignBefore > 0 {
 		pbt.Sample(fmt.Sprintf("stream=%v", c.Stream), c)
@@ -172,14 +236,24 @@ func runID(c IDCase, firstMatch int) error {
 		for i, r := range c.Replies {
 			a.Write(frame(idReply(r.ID, i)))
 		}
-		cl := &dns.Client{Net: "tcp", Timeout: 10 * time.Second}
-		rep, _, err := cl.ExchangeWithConn(q, &dns.Conn{Conn: b})
+		var rep *dns.Msg
+		var err error
+		if c.API == "ExchangeConn" {
+			b.SetDeadline(time.Now().Add(10 * time.Second))
+			rep, err = dns.ExchangeConn(b, q)
+		} else {
+			cl := &dns.Client{Net: "tcp", Timeout: 10 * time.Second}
+			rep, _, err = cl.ExchangeWithConn(q, &dns.Conn{Conn: b})
+		}
 		if len(c.Replies) == 0 {
 			return nil
 		}
 		if c.Replies[0].ID == c.ID {
 			if err != nil {
-				return fmt.Errorf("stream exchange with a matching reply failed: %v", err)
+				return fmt.Errorf("stream exchange (%s) with a matching reply failed: %v", c.API, err)
+			}
+			if rep == nil {
+				return fmt.Errorf("stream exchange (%s) with a matching reply returned neither a reply nor an error", c.API)
 			}
 			if rep.Id != c.ID || replyOrdinal(rep) != 0 {
 				return fmt.Errorf("stream exchange returned reply #%d with ID %d, want reply #0 with ID %d", replyOrdinal(rep), rep.Id, c.ID)
@@ -200,7 +274,7 @@ func runID(c IDCase, firstMatch int) error {
 	cc.OnWrite(func(i int, pk memnet.Packet) {
 		sent = pk.Data
 		for i, r := range c.Replies {
-			b := idReply(r.ID, i)
+			b := idReplySized(r.ID, i, r.Size)
 			if r.Kind == "foreign-malformed" {
 				b = b[:len(b)-3] // header and ID intact, RDATA shorter than its RDLENGTH
 			}
@@ -211,19 +285,26 @@ func runID(c IDCase, firstMatch int) error {
 	if firstMatch < 0 {
 		tmo = time.Duration(c.Timeout) * time.Millisecond
 	}
-	cli := &dns.Client{Net: "udp", Timeout: tmo}
+	if c.OptSize > 0 {
+		q.SetEdns0(uint16(c.OptSize), false)
+	}
+	cli := &dns.Client{Net: "udp", Timeout: tmo, UDPSize: uint16(c.ClientUDPSize)}
 	t0 := time.Now()
-	rep, _, err := cli.ExchangeWithConn(q, &dns.Conn{Conn: cc})
+	rep, _, err := cli.ExchangeWithConn(q, &dns.Conn{Conn: cc, UDPSize: uint16(c.ConnUDPSize)})
 	el := time.Since(t0)
 	if len(sent) < 2 || uint16(sent[0])<<8|uint16(sent[1]) != c.ID {
 		return fmt.Errorf("request on the wire does not carry ID %d: %s", c.ID, hexHead(sent))
 	}
 	if firstMatch >= 0 {
 		if err != nil {
-			return fmt.Errorf("datagram exchange: matching reply is #%d of %v but the exchange failed: %v", firstMatch, c.Replies, err)
+			return fmt.Errorf("datagram exchange: matching reply is #%d of %v (receive buffer %d octets: OPT %d, Client.UDPSize %d, Conn.UDPSize %d) but the exchange failed: %v", firstMatch, c.Replies, c.udpBuffer(), c.OptSize, c.ClientUDPSize, c.ConnUDPSize, err)
 		}
-		if rep.Id != c.ID || replyOrdinal(rep) != firstMatch {
-			return fmt.Errorf("datagram exchange returned reply #%d (ID %d); want #%d, the first with the request's ID %d; replies %v", replyOrdinal(rep), rep.Id, firstMatch, c.ID, c.Replies)
+		if rep == nil || rep.Id != c.ID || replyOrdinal(rep) != firstMatch {
+			return fmt.Errorf("datagram exchange returned reply #%d; want #%d, the first with the request's ID %d; replies %v", replyOrdinal(rep), firstMatch, c.ID, c.Replies)
+		}
+		want := idReplySized(c.ID, firstMatch, c.Replies[firstMatch].Size)
+		if got := rep.Answer[0].(*dns.NULL).Data; got != string(want[fullOverhead:]) {
+			return fmt.Errorf("datagram exchange: the %d-octet reply (receive buffer %d octets: OPT %d, Client.UDPSize %d, Conn.UDPSize %d) arrived with %d RDATA octets instead of %d", len(want), c.udpBuffer(), c.OptSize, c.ClientUDPSize, c.ConnUDPSize, len(got), len(want)-fullOverhead)
 		}
 		return nil
 	}
